@@ -72,7 +72,7 @@ func runC01(c *Ctx) {
 					Bound: f.bound,
 					Cfg:   vrt.Config{Horizon: int64(300 * time.Second)},
 					Body: func() {
-						run = rcExecute(&rcCfg{Reqs: reqs, Faults: f.faults, KeepSession: keep, ConnTimeout: f.tmo})
+						rcExecuteInto(&rcCfg{Reqs: reqs, Faults: f.faults, KeepSession: keep, ConnTimeout: f.tmo}, &run)
 						c01Oracle(run)
 					},
 					Observe: func() uint64 { return run.net.TraceHash() },
